@@ -107,7 +107,7 @@ def run(prop, tier, seed, only=None, with_mc=True):
     jobs = []
     meta_by_path = {}
     for ad in adapters:
-        for cfg in ad.configs(tier):
+        for cfg in ad.all_configs(tier):
             if cfg.get("props") and prop not in cfg["props"]:
                 continue
             out = trace_path(ad, cfg, tier, seed, with_leaves)
